@@ -24,6 +24,7 @@ func init() {
 	sb.Assume("C01",
 		"a case is judged by the worker's reply only: ok / parse_error are fine, go_panic / died / hang / oom are failures; the deadline is 2 s + 1 ms per input byte (measured parse cost: 20-200 us), a miss is re-run alone with 5x the budget before it counts",
 		"hang and panic findings are identified by phase and innermost /repo function, so a second defect in the same function is attributed to the listed finding",
+		"run clause: only a nil-pointer dereference or a conversion of a nil interface while running an accepted mutant counts (the statement's 'internal crash caused by a missing operand or clause'); other run-time panics on complete operands are labelled and left to C03",
 		"run-after-accept is only exercised on mutants of generated side-effect-free programs; a run that does not terminate or that recurses without bound is inconclusive (a mutant may legitimately loop), only a Go panic is a failure",
 		"'positioned error' is recorded (label parse_error.pos / .nopos) but not asserted: the CLI falls back to the current token for controls without a location",
 	)
@@ -104,6 +105,13 @@ func c01Judge(pool *sb.Pool, rec *sb.Rec, c c01Case) *failure {
 		return nil
 	case sb.GoPanic:
 		kind := sb.PanicKind(rep.Msg)
+		if rep.Phase == "run" && !strings.Contains(rep.Msg, "nil pointer dereference") && !strings.Contains(rep.Msg, "interface is nil") {
+			// the property's run clause is about crashes caused by a missing operand or clause (a nil
+			// node or nil value); a panic on operands that are all present ("fu" << "c") is operator
+			// semantics, decided by C03, not by this check
+			rec.Label("run.go_panic.operands-present:"+rep.Site, clip(c.Src, 300))
+			return nil
+		}
 		key := fmt.Sprintf("site:%s/%s/%s", rep.Phase, rep.Site, kind)
 		rec.Label(label+":"+rep.Site, clip(c.Src, 300))
 		return &failure{Key: key, Detail: fmt.Sprintf("%s: Go panic %q at %s on input %s", c.Why, clip(rep.Msg, 160), rep.Site, clip(fmt.Sprintf("%q", c.Src), 300)), Case: c}
